@@ -720,6 +720,10 @@ class Proc(object):
                     return ("(%s %s)" % (m[0], recv), "Str")
                 if f.attr == "split" and len(e.args) == 1 and isinstance(e.args[0], ast.Constant) and isinstance(e.args[0].value, str) and len(e.args[0].value) == 1:
                     return ("(pySplit1 %s '%s')" % (recv, e.args[0].value), ("List", "Str"))
+                if f.attr == "split" and len(e.args) == 1 and isinstance(e.args[0], ast.Constant) and isinstance(e.args[0].value, str) and len(e.args[0].value) == 2 \
+                        and e.args[0].value[0] != e.args[0].value[1]:
+                    # a two-character separator of two different characters ("->"): occurrences cannot overlap
+                    return ("(pySplit2 %s '%s' '%s')" % (recv, e.args[0].value[0], e.args[0].value[1]), ("List", "Str"))
         if isinstance(f, ast.Attribute) and f.attr == "replace" and len(e.args) == 2 and all(isinstance(a, ast.Constant) and isinstance(a.value, str) for a in e.args) \
                 and e.args[1].value == "" and len(e.args[0].value) == 1:
             # text.replace(c, "") with a one-character constant: the text without that character
@@ -2512,6 +2516,10 @@ PROCS = [
          params=[("k", "Str")], ret=("Except", "CfgErr", ("Prod", "Str", "Str")), implicit=[("strip", ("Fun", ["Str"], "Str"))],
          methods={("Str", "strip"): ("strip", [], "Str")}, constructors={"SpeciesTuple": ("Prod", "Str", "Str")}, unpack_error="CfgErr.unpack",
          raises=[("keys should be of the form 'SPECIES_A-SPECIES_B'\"", "CfgErr.notTwoParts"), ("a species label is missing", "CfgErr.blankSpecies")]),
+    dict(name="fs_species_func", file="config/_config_parser.py", func="ConfigParser._parse_eam_fs_density_line.species_func",
+         params=[("k", "Str")], ret=("Except", "CfgErr", ("Prod", "Str", "Str")), implicit=[("strip", ("Fun", ["Str"], "Str"))],
+         methods={("Str", "strip"): ("strip", [], "Str")}, constructors={"EAMFSDensitySpeciesTuple": ("Prod", "Str", "Str")}, unpack_error="CfgErr.unpack",
+         raises=[("invalid key '{}'\".format", "CfgErr.notTwoParts"), ("a species label is missing", "CfgErr.blankSpecies")]),
     dict(name="dup_pairs", file="config/_config_parser.py", func="ConfigParser._check_for_duplicate_pairs",
          params=[("self._config_parser", ("Rec", "CfgRec"))], ret=("Except", "CfgErr", "Unit"), implicit=[("strip", ("Fun", ["Str"], "Str"))],
          records=CFG_REC, methods=CFG_METHODS, raises=[("Multiple entries for the pair", "CfgErr.duplicatePair")],
@@ -2928,6 +2936,17 @@ def splitChars (c : Char) : List Char → List (List Char)
       | [] => [[x]]
       | p :: ps => (x :: p) :: ps
 def pySplit1 (s : String) (c : Char) : List String := (splitChars c s.toList).map String.ofList
+
+/-- `s.split(ab)` for a separator of two different characters: the pieces between its occurrences, scanned from the left -/
+def splitChars2 (a b : Char) : List Char → List (List Char)
+  | [] => [[]]
+  | [x] => [[x]]
+  | x :: y :: rest =>
+    if x == a && y == b then [] :: splitChars2 a b rest
+    else match splitChars2 a b (y :: rest) with
+      | [] => [[x]]
+      | p :: ps => (x :: p) :: ps
+def pySplit2 (s : String) (a b : Char) : List String := (splitChars2 a b s.toList).map String.ofList
 
 /-- a `[Potential-Form]` definition / a `[Table-Form:NAME]` definition as the registry reads them; the function and form objects it builds are opaque -/
 structure SigRec where
